@@ -3,6 +3,7 @@ from glob import glob
 import queue
 import os
 import time
+from inspect import isawaitable
 
 from tornado import gen
 import weakref
@@ -38,6 +39,7 @@ class Source(Stream):
 
     def __init__(self, start=False, **kwargs):
         self.stopped = True
+        self._polling = False
         super().__init__(ensure_io_loop=True, **kwargs)
         self.started = False
         if start:
@@ -57,7 +59,21 @@ class Source(Stream):
         if self.stopped:
             self.stopped = False
             self.started = True
-            self.loop.add_callback(self.run)
+            self.loop.add_callback(self._run_exclusive)
+
+    async def _run_exclusive(self):
+        # A polling loop from before the last stop() may still be suspended
+        # (sleeping, or waiting for downstream); it carries on when it wakes up
+        # and finds the source started again, so do not start a second one.
+        if self._polling:
+            return
+        self._polling = True
+        try:
+            result = self.run()
+            if isawaitable(result):
+                await result
+        finally:
+            self._polling = False
 
     async def run(self):
         """This coroutine will be invoked by start() and emit all data
